@@ -1,23 +1,22 @@
 SPECIFICATION Spec
 CONSTANTS
   NameSeq <- NamesAB
-  MaxFile = 4
-  MaxLen = 6
-  Counts <- Counts13
-  CfgSet <- CfgRefs
-  MODE = "refs"
+  MaxFile = 3
+  MaxLen = 3
+  Counts <- Counts12
+  CfgSet <- CfgDir
+  MODE = "dir"
   Fails <- NoFail
   MAXHOST = 2
   BUG_CREATE_LEAK = FALSE
   BUG_PROBE_LEAK = FALSE
-  BUG_DOTS = FALSE
+  BUG_DOTS = TRUE
   DirN <- Dir02
-  MAXSEEK = 1000
-  SPECIAL_A = TRUE
-  Sample = 400
+  MAXSEEK = 25
+  SPECIAL_A = FALSE
+  Sample = 20
   WithDetail <- NoDetail
   BlameLabel <- AnyBlame
-INVARIANTS NoViol Resolves
-CONSTRAINT Export
+INVARIANTS NoViolStrict
 VIEW View
 CHECK_DEADLOCK FALSE
